@@ -52,8 +52,11 @@ def apply_env(star, nreg):
 def evaluate_request(req):
     from .props import c06
     apply_env(req['star'], req['nreg'])
-    target, spec, kw = c06.build_entry(req['kind'], req['recipe'])
+    env = {}        # the classes made for this request: the target's and those of the registrations are the same
+    target, spec, kw = c06.build_entry(req['kind'], req['recipe'], env)
     import glom
+    if req.get('regs') and not req.get('glommer'):
+        c06.apply_regs(glom, req['regs'], env)
     if req.get('specglom'):
         sp = glom.Spec(spec, scope={'k': 'spec-level-k'})
         return canon_outcome(lambda: sp.glom(target, scope=req['specglom']))
@@ -62,6 +65,7 @@ def evaluate_request(req):
         g = glom.Glommer()
         for _ in range(req.get('gregs', 0)):
             g.register(tg.Slots, get=c06.custom_get)
+        c06.apply_regs(g, req.get('regs') or [], env)
         return canon_outcome(lambda: g.glom(target, spec, **kw))
     return canon_outcome(lambda: glom.glom(target, spec, **kw))
 
